@@ -17,9 +17,6 @@ func Copy(source, dest string) error {
 		return err
 	}
 	defer out.Close()
-	if err := copyHook("created", source, dest); err != nil {
-		return err
-	}
 	_, err = io.Copy(out, in)
 	if err == nil {
 		err = copyHook("copied", source, dest)
